@@ -65,6 +65,12 @@ func (f *Frame) instr(b *ssa.BasicBlock, bi *BInfo, idx int, ins ssa.Instruction
 		f.unop(bi, x)
 	case *ssa.Store:
 		f.storeInstr(bi, x)
+		// a function-typed parameter captured by a closure lives in a cell: remember what the cell holds
+		if k := f.findParamFn(x.Val); k != "" {
+			if l := f.addrLoc(x.Addr); l != nil {
+				f.top.cellParamFns[l.String()] = k
+			}
+		}
 	case *ssa.BinOp:
 		a, c := f.val(x.X), f.val(x.Y)
 		if x.Op == token.QUO || x.Op == token.REM {
@@ -268,6 +274,9 @@ func (f *Frame) unop(bi *BInfo, x *ssa.UnOp) {
 		if l := f.addrLoc(x.X); l != nil {
 			f.lockAccess(bi, l, false)
 			v = g.load(st, l)
+			if k := f.top.cellParamFns[l.String()]; k != "" {
+				f.paramFns[x] = k
+			}
 		} else {
 			pt := derefType(x.X.Type())
 			ref := f.val(x.X)
